@@ -13,9 +13,10 @@
 (*            header / body and issues the next request                     *)
 (* A request is "full" (binary.Read -> io.ReadFull: keeps reading until n   *)
 (* bytes arrived) or "single" (one reader.Read: returns what one Take       *)
-(* gives).  Switch ShortCookieRead = TRUE is the code as written (cookie    *)
-(* body read with a single reader.Read), FALSE the repaired behaviour       *)
-(* (io.ReadFull).                                                           *)
+(* gives).  Switch ShortCookieRead = FALSE is the code (cookie body read    *)
+(* with io.ReadFull; default in every cfg); TRUE is the code before fix     *)
+(* b190383 (a single reader.Read) -- kept in NtsKeStream_faithful.cfg as a  *)
+(* self-test: the property section must reject it.                          *)
 (* Assumed: chunks are at most bufio's buffer size (4096) and cookie bodies *)
 (* are shorter than that (no direct read into the caller's slice).          *)
 (***************************************************************************)
